@@ -192,7 +192,8 @@ WHAT SEPARATES THIS FROM C01 FOR THE REAL ENGINE (each item tied or judged elsew
    rings through horizontal runs are outside), JOINS (`join_with`, horizontal joins: do not occur in the derived run), open paths (C05);
  * the HEIGHTS EXCLUDED: scanlines and crossing heights (finitely many; the region of a polygon set is determined by its restriction to the other
    heights up to its boundary), points on input edges;
- * the hypotheses `Built.Hyp` / `Built.HypR` / `rs.s.ael = []` are decided per input, not proved of `build`; inputs not in general position
+ * the hypotheses `Built.Hyp` / `Built.HypR` / `rs.s.ael = []` are hypotheses HERE; `Props/C01Build` proves them of `build` from the input-only
+   precondition `InputGP` plus `GPAll` (`c01_model_level_reduced`); inputs not in general position
    (coincident vertices, collinear overlapping edges, vertices on edges) are outside;
  * the tie of the decorated event list to the engine is by replay (`SWEEPORDER`, `SWEEPHOT`, `SWEEPRINGS`), |coord| ≤ 2^24. -/
 theorem c01_model_level (subj clip : Paths) (cfg : Cfg) (hct : cfg.ct ≠ .noClip) (cx : GEdge → Int → Int)
